@@ -11,13 +11,6 @@ Close Scope Z_scope.
 Open Scope list_scope.
 
 (* ------------------------------------------------------------------ identity labels and positions *)
-Fixpoint labels (d : json) : list nat :=
-  match d with
-  | JList i l => i :: flat_map labels l
-  | JDict i l => i :: flat_map (fun kx => labels (snd kx)) l
-  | _ => []
-  end.
-
 Notation cnt := (count_occ Nat.eq_dec).
 
 Lemma cnt_flat_zero {A} (f : A -> list nat) (l : list A) i :
@@ -305,8 +298,24 @@ Notation set_match := (set_match B H depth).
 Notation sev := (seval_h depth).
 
 (* identity labels are unique and below the allocation mark (RunM.v keeps documents that way) *)
-Definition fresh (doc : json) (nl : nat) : Prop :=
-  NoDup (labels doc) /\ forall i, In i (labels doc) -> i < nl.
+Definition fresh (doc : json) (nl n : nat) : Prop :=
+  NoDup (labels doc) /\ forall i, In i (labels doc) -> i < nl \/ nl + n <= i.
+
+Lemma nodupb_NoDup l : nodupb l = true -> NoDup l.
+Proof.
+  induction l as [|x l IH]; intros Hb; [constructor|]. simpl in Hb. apply andb_prop in Hb. destruct Hb as [H1 H2].
+  constructor; [|apply IH; exact H2]. intros Hin. apply negb_true_iff in H1.
+  assert (existsb (Nat.eqb x) l = true) by (apply existsb_exists; exists x; split; [exact Hin | apply Nat.eqb_refl]).
+  congruence.
+Qed.
+
+(* the boolean the model evaluates before every cascading assignment of a correspondence run *)
+Lemma freshb_fresh doc nl n : freshb doc nl n = true -> fresh doc nl n.
+Proof.
+  unfold freshb, fresh. intros Hb. apply andb_prop in Hb. destruct Hb as [H1 H2].
+  split; [apply nodupb_NoDup; exact H1|]. rewrite forallb_forall in H2. intros i Hi. specialize (H2 i Hi).
+  apply orb_prop in H2. destruct H2 as [H2|H2]; [left; apply Nat.ltb_lt; exact H2 | right; apply Nat.leb_le; exact H2].
+Qed.
 
 Lemma get_match_ki doc pp tr :
   kipath pp = true ->
@@ -335,8 +344,8 @@ Proof.
     + right. right. eauto.
 Qed.
 
-Lemma fresh_one doc nl pp y i :
-  fresh doc nl -> lookup doc pp = Some y -> label_of y = Some i -> cnt (labels doc) i = 1.
+Lemma fresh_one doc nl n pp y i :
+  fresh doc nl n -> lookup doc pp = Some y -> label_of y = Some i -> cnt (labels doc) i = 1.
 Proof.
   intros [Hnd _] Hl Hi. pose proof (lookup_cnt _ _ _ _ Hl Hi) as H1.
   pose proof (proj1 (NoDup_count_occ Nat.eq_dec (labels doc)) Hnd i). lia.
@@ -349,7 +358,7 @@ Lemma kipath_snoc pp v : kipath (pp ++ [v]) = true -> kipath pp = true /\ kistep
 Proof. unfold kipath. rewrite forallb_app. simpl. rewrite andb_true_r. apply andb_prop. Qed.
 
 Theorem set_match_cset : forall fuel d0 doc p x tr nl r doc' nl' es,
-  kipath p = true -> List.length p < fuel -> fresh doc nl ->
+  kipath p = true -> List.length p < fuel -> fresh doc nl (List.length p) ->
   set_match fuel (SrcDoc d0) doc p x true tr nl = (r, doc', nl', es) ->
   match r with
   | Ok m => cset doc p x nl = (true, doc') /\ tdata m = x
@@ -366,7 +375,7 @@ Proof.
   destruct (jget_match B H depth (SrcDoc doc) pp true tr) as [rg es0]. cbn [fst] in Hg.
   destruct Hg as [(pm & -> & Hl) | [(-> & Hl) | (e & -> & Hb)]].
   - (* the parent path resolves *)
-    rewrite (leaf_set_store doc pm v x pp (tdata pm) Hkv Hl eq_refl (fun i Hi => fresh_one doc nl pp _ i Hfr Hl Hi)) in Hsm.
+    rewrite (leaf_set_store doc pm v x pp (tdata pm) Hkv Hl eq_refl (fun i Hi => fresh_one doc nl _ pp _ i Hfr Hl Hi)) in Hsm.
     rewrite (cset_snoc_exists pp doc v x nl _ Hl).
     destruct (store v x (tdata pm)) as [y'|]; injection Hsm as <- <- _ _.
     + split; [reflexivity | apply tdata_mk_child; exact Hkv].
@@ -376,7 +385,8 @@ Proof.
     assert (Hul : uses_label v = true) by (destruct v; try discriminate; reflexivity).
     rewrite Hul in Hsm.
     destruct (set_match f (SrcDoc d0) doc pp (default_for_set v nl) true tr (S nl)) as [[[r1 doc1] nl2] es1] eqn:Hrec.
-    assert (Hfr1 : fresh doc (S nl)) by (destruct Hfr as [H1 H2]; split; [exact H1 | intros i Hi; specialize (H2 i Hi); lia]).
+    assert (Hfr1 : fresh doc (S nl) (List.length pp)).
+    { destruct Hfr as [H1 H2]; split; [exact H1 | intros i Hi; specialize (H2 i Hi); rewrite app_length in H2; simpl in H2; lia]. }
     assert (Hlen1 : List.length pp < f) by (rewrite app_length in Hlen; simpl in Hlen; lia).
     pose proof (IH d0 doc pp (default_for_set v nl) tr (S nl) r1 doc1 nl2 es1 Hkpp Hlen1 Hfr1 Hrec) as IHr.
     rewrite (cset_snoc_missing pp doc v x nl Hne Hl).
@@ -387,7 +397,7 @@ Proof.
       { intros i Hi. assert (i = nl) by (destruct v; try discriminate; simpl in Hi; congruence). subst i.
         rewrite (cset_count pp doc _ (S nl) doc1 nl ltac:(lia) Hl Hc).
         assert (H0 : cnt (labels doc) nl = 0).
-        { apply count_occ_not_In. intros Hin. destruct Hfr as [_ H2]. specialize (H2 _ Hin). lia. }
+        { apply count_occ_not_In. intros Hin. destruct Hfr as [_ H2]. specialize (H2 _ Hin). rewrite app_length in H2. simpl in H2. lia. }
         rewrite H0. destruct v; try discriminate; simpl; destruct (Nat.eq_dec nl nl); congruence. }
       rewrite (leaf_set_store doc1 pm v x pp _ Hkv Hl1 Htd Hone) in Hsm.
       destruct (store v x (default_for_set v nl)) as [y'|]; injection Hsm as <- <- _ _.
@@ -402,7 +412,7 @@ Qed.
 
 (* whatever goes wrong, no pre-existing node has been altered, moved or removed *)
 Theorem set_match_failure_grows fuel d0 doc p x tr nl e doc' nl' es :
-  kipath p = true -> List.length p < fuel -> fresh doc nl ->
+  kipath p = true -> List.length p < fuel -> fresh doc nl (List.length p) ->
   set_match fuel (SrcDoc d0) doc p x true tr nl = (Exn e, doc', nl', es) -> grows doc doc'.
 Proof.
   intros Hk Hlen Hfr Hsm. pose proof (set_match_cset _ _ _ _ _ _ _ _ _ _ _ Hk Hlen Hfr Hsm) as Hs. cbn in Hs.
@@ -412,7 +422,7 @@ Qed.
 (* after a successful cascade the value is found where the path says: get_match(p, doc') is a match holding
    it (or the search dies of its budget, F1) *)
 Theorem set_match_then_get fuel d0 doc p x tr tr' nl m doc' nl' es :
-  kipath p = true -> List.length p < fuel -> fresh doc nl ->
+  kipath p = true -> List.length p < fuel -> fresh doc nl (List.length p) ->
   set_match fuel (SrcDoc d0) doc p x true tr nl = (Ok m, doc', nl', es) ->
   let r := fst (jget_match B H depth (SrcDoc doc') p true tr') in
   (exists pm, r = Ok (Some pm) /\ tdata pm = x) \/ (exists e, r = Exn e /\ budget_exn e = true).
